@@ -211,13 +211,22 @@ class Check:
             if not in_spec:
                 continue           # impl == spec on this input; only the model is off
             info["spec_bad"] += 1
+            if self.is_known(st, c, o):          # recorded finding: say so, do not let it use up the report budget
+                self.report_case(st, c, o, "known finding", None)
+                continue
+            reported = info.get("reported", 0)
+            if reported >= 3:
+                continue
+            info["reported"] = reported + 1
             exp = self.expected(st, c, o)
             self.report_case(st, c, o, "implementation differs from %s" % ("specification" if st.spec_check else "model (proved equal to the specification)"), exp)
-            if info["spec_bad"] >= 3:
-                break
         info["wall_s"] = round(time.time() - t_start, 1)
         self.cov["streams"][st.name] = info
         return info
+
+    def is_known(self, st, c, o):
+        k = st.known(c, o)
+        return k is not None and any(f.get("key") == k and f.get("property") == self.pid and f.get("status") == "known" for f in C.known_findings())
 
     def report_case(self, st, c, o, why, expected):
         k = st.known(c, o)
@@ -297,6 +306,9 @@ class Check:
             if f.get("property") == self.pid and f.get("status") == "known" and f.get("always_report") and f["key"] not in self.known_hits:
                 print("KNOWN-FINDING: property=%s %s" % (self.pid, f["what"]))
         C.write_evidence(self.pid, self.tier, self.seed, self.cov, time.time() - self.t0, len(self.violations), self.assumptions)
+        real = [v for v in self.violations if not v[1]]
+        # a concrete failing input makes the "no failing input found" reports redundant
+        self.violations = real if real else self.violations
         for path, suffix in self.violations[:10]:
             print("VIOLATION property=%s replay=%s%s" % (self.pid, os.path.relpath(path, C.VERIF), (" " + suffix) if suffix else ""))
         sys.stdout.flush()
